@@ -17,6 +17,7 @@ import RV.Base.Proto
                                     parser = nt|nquads|turtle|n3|trig|xml|trix|json-ld|hext; sk = skolemize=True,
                                     pre = preserve_bnode_ids=True, gen = generalized_rdf=True, ctx=K = bnode_context=<the
                                     caller's dict number K> (empty at reset), inst=K = N-Quads parser object number K
+    ctxset K nL bN        -> ok     the caller's dict K gets the entry  label L -> node N  (before it is handed to a call)
     ctx K                 -> the keys of the caller's dict K: sorted label numbers < 1000, then `+n` for n other keys
     q s p o g             -> ok     next statement of the document (g may be `-`)
     open / close          -> ok     `{` / `}` of an N3 formula: the statements in between are the formula's (their g is its node)
@@ -193,6 +194,15 @@ def step (s : St) : List String → St × String
         | some k => kset s.insts k fin.2
         | none => s.insts
       ({ s with ds := r.1, cur := [], maps := s.maps ++ [(s.pol, r.2)], ctxs := ctxs, insts := insts }, "ok")
+  | ["ctxset", k, l, b] =>
+    -- the caller put an entry into its dict before handing it over:  ctx[K][label] = node
+    match k.toNat?, numAfter 'n' l, numAfter 'b' b with
+    | some k, some l, some b =>
+      let m := (klookup s.ctxs k).getD []
+      (match alookup m (.named l) with
+        | some _ => (s, "ok")
+        | none => ({ s with ctxs := kset s.ctxs k ((.named l, b) :: m) }, "ok"))
+    | _, _, _ => (s, "bad-op")
   | ["ctx", k] =>
     match k.toNat? with
     | some k => (s, showCtx ((klookup s.ctxs k).getD []))
